@@ -18,7 +18,9 @@ from .. import block
 from .. import simulator
 
 
-__all__ = ['not_from_undef', 'Edge', 'Delta', 'DataEdit', 'IfOutput', 'IfNotIitialized']
+__all__ = [
+    'not_from_undef', 'Edge', 'Delta', 'DataEdit', 'IfOutput',
+    'NotIfInitialized', 'IfNotIitialized']
 
 _logger = logging.getLogger(__package__)
 
@@ -92,7 +94,7 @@ class IfOutput:
         return data if self._ctrl_blk.output else None
 
 
-class IfNotIitialized:
+class NotIfInitialized:
     """
     Enable/disable events depending on block's init state.
     """
@@ -104,6 +106,10 @@ class IfNotIitialized:
     def __call__(self, data: Mapping) -> Mapping|None:
         assert isinstance(self._ctrl_blk, block.SBlock)     # a name should be resolved
         return None if self._ctrl_blk.is_initialized() else data
+
+
+# the original misspelt name is kept for backward compatibility
+IfNotIitialized = NotIfInitialized
 
 
 class _dualmethod:
